@@ -73,7 +73,7 @@ AllocOkPreds(c, s, op, r, o, mb) ==
   <<"C01", "InBounds", r.ps = 0 \/ (s.doff <= r.po /\ r.po + r.ps <= o.alloc /\ o.alloc <= o.cap)>>,
   <<"C01", "ZstOccupiesNothing", ZeroReq(op) => r.ps = 0>>,
   <<"C16", "FirstAllocationAtDataOffset",
-      (s.first /\ r.ps > 0 /\ s.obs.alloc = s.doff /\ s.obs.fl = <<>>) => r.po = Align(s.doff, TAlign(op))>>,
+      (s.first /\ ~s.rewound /\ r.ps > 0 /\ s.obs.fl = <<>>) => r.po = Align(s.doff, TAlign(op))>>,
   <<"C08", "ZeroOnReturn", (op.k = "ab" /\ r.ps > 0) => mb.zeroOnReturn>>,
   <<"C10", "ReuseOnlyFromFreeSegment", fresh \/ segIdx # {}>>,
   <<"C10", "NoneNeverReuses", (c.kind = "none") => fresh>>,
